@@ -70,6 +70,9 @@ func Start(prop, level string) *R {
 	// the explorers allocate many short-lived objects on all cores over a tiny live heap;
 	// collecting at 100% growth would spend most of the time in the collector
 	debug.SetGCPercent(2000)
+	// ... but never let that balloon a large live heap: the collector becomes eager again near 3 GiB
+	// (several checks may run side by side on one machine)
+	debug.SetMemoryLimit(3 << 30)
 	args := os.Args[1:]
 	for i := 0; i < len(args); i++ {
 		switch args[i] {
